@@ -17,6 +17,10 @@ type Hooks struct {
 	FSEvent  func(kind, path string, b []byte)
 	WrapFile func(path string, f File) File
 	Evict    func(db int, key string, memUsed int64, limit uint64)
+	// LockYield is called before an instrumented lock is requested (write = exclusive),
+	// LockNote after it was acquired (acquired = true) and before it is released (acquired = false).
+	LockYield func(m *RWMutex, name string, write bool)
+	LockNote  func(m *RWMutex, write bool, acquired bool)
 }
 
 var installed atomic.Pointer[Hooks]
